@@ -142,7 +142,7 @@ Tr_C08_status(A, B) ==
 (* observation strictly inside its window; observations exactly at the end of *)
 (* their window may or may not have released yet                              *)
 Tr_C08_ingest(A, B) ==
-    Boundary(A, B) =>
+    (Boundary(A, B) /\ ~cfg.api) =>      \* (component histories have no observations)
       LET inside == {o \in ObsNames : A.obs[o].ast # NoneT /\ A.obs[o].ast < B.now
                                        /\ B.now <= A.obs[o].ast + OCfg(o).dur * K - K}
           edge == {o \in ObsNames : A.obs[o].ast # NoneT /\ B.now > A.obs[o].ast + OCfg(o).dur * K - K
